@@ -387,6 +387,15 @@ class Env:
                 elif op == 'load':
                     self.cur_origin = 'load'
                     await self.load_batch(st[1], out, si)
+                    # Loading (enable(), set expression) leaves "evaluate at the next pass" requests behind.  The polling loop
+                    # would run that pass within one tick interval; run it now, in both runs at the same instant -- otherwise
+                    # the "next pass" is whichever comes first, e.g. one triggered by a write to a faulty port, and the two
+                    # runs differ only in WHEN a newly loaded follower first catches up with its expression.
+                    how, _r = await self.bounded(main.update())
+                    if how == 'stuck':
+                        self.log(['pass_stuck', 'load'])
+                        out['stuck'].append({'step': si, 'what': 'the polling pass after loading a batch did not finish within '
+                                                                 '%d virtual seconds' % STUCK_S})
                 elif op == 'fault':
                     p = cp.get(st[1])
                     if p is not None:
@@ -537,13 +546,9 @@ def healthy_view(run, H):
     return v
 
 
-def diff_views(a, b, pushes=True):
-    """first difference between two healthy views: (observable kind, detail) or None.
-    pushes=False (load-time scenarios): enabling ANY port forces the evaluation of all expressions at the next pass (by
-    design); that next pass may be one triggered by a write to a faulty port, so *when* the forced (and, values being
-    unchanged, idle) evaluation happens is not comparable -- values, events and writes still are."""
-    for kind in ('ports', 'adds', 'last', 'changes', 'writes', 'api', 'evalwrites', 'tick_reads', 'hb_seconds') + (
-            ('pushes',) if pushes else ()):
+def diff_views(a, b):
+    """first difference between two healthy views: (observable kind, detail) or None"""
+    for kind in ('ports', 'adds', 'last', 'changes', 'writes', 'api', 'evalwrites', 'tick_reads', 'hb_seconds', 'pushes'):
         if a[kind] != b[kind]:
             detail = {'with_faulty_ports': a[kind], 'without': b[kind]}
             if kind in ('last', 'ports'):
@@ -623,7 +628,7 @@ def pair(env, sc):
         # every scripted fault is a *raising* fault (in scope); scripted hangs exist only in `probes`
         d = ('pass-stuck', {'with_faulty_ports': fr.get('stuck'), 'without': rr.get('stuck')})
     if d is None:
-        d = diff_views(healthy_view(fr, H), healthy_view(rr, H), pushes=not sc.get('load_mode'))
+        d = diff_views(healthy_view(fr, H), healthy_view(rr, H))
     if d is None:
         # a healthy port (or a pass) still busy after a step, in one run only
         ua = sorted(b for b in fr['unsettled'] if b in H or b == '*')
